@@ -65,6 +65,8 @@ func Harness_C14_Artifact() {
 		handle recovery.CheckpointHandle
 		vals   [][]byte
 		dir    string
+		first  []byte // the first value written
+		simple bool   // exactly one table flushed, nothing compacted, not recovered under a new id
 	}
 	var ops []opState
 	for o := 0; o < nOps; o++ {
@@ -75,9 +77,13 @@ func Harness_C14_Artifact() {
 		// (an even number of writes leaves nothing unflushed: the WAL has nothing to replay)
 		depth := verif.Choose("depth", 5)
 		writes := []int{1, 3, 5, 2, 4}[depth]
+		var first []byte
 		for w := 0; w < writes; w++ {
 			i := w % len(verifSPKeys)
 			vals[i] = verif.Bytes("v", 1)
+			if w == 0 {
+				first = vals[i]
+			}
 			db.Put(verifSPKeys[i], vals[i])
 		}
 		if depth > 0 {
@@ -85,7 +91,9 @@ func Harness_C14_Artifact() {
 				panic(err)
 			}
 		}
+		simple := depth == 1
 		if verif.Param("GEN", 1) == 1 && verif.Choose("recovered-under-a-new-operator-id", 2) == 1 {
+			simple = false
 			// the state above belongs to a previous operator: it checkpoints, and a replacement with a
 			// new id (= a new directory) recovers from that checkpoint, writes once more and takes the
 			// checkpoint the savepoint is made of. It still references the old operator's files.
@@ -101,8 +109,26 @@ func Harness_C14_Artifact() {
 		}
 		h, err := db.Checkpoint(7)()
 		verif.Assert(err == nil, "dkv-checkpoint-succeeds")
-		ops = append(ops, opState{h, vals, dir})
+		ops = append(ops, opState{h, vals, dir, first, simple})
 		snap.operatorCheckpoints = append(snap.operatorCheckpoints, &snapshotpb.OperatorCheckpoint{CheckpointId: 7, OperatorId: dir, DkvFileUri: h.URI})
+	}
+	if nOps == 2 && ops[0].simple && ops[1].simple && verif.Param("MERGE", 1) == 1 && verif.Choose("scaled-in-before-the-savepoint", 2) == 1 {
+		// the job was scaled in: one operator recovered from both checkpoints above (each earlier
+		// operator had flushed exactly one table, so it references two tables and two logs whose
+		// names coincide and whose directories differ), wrote once more
+		// and took the checkpoint the savepoint is made of. Checked at the level of files only.
+		// (the two earlier operators' first files differ in content, so that one standing in for the
+		// other is visible)
+		verif.Assume(ops[0].first[0] != ops[1].first[0])
+		dir := "w/opm"
+		db := dkv.Open(dkv.DBOptions{FileSystem: mem.WithWorkingDir(dir), MemTableSize: 20, TargetFileSize: 64, L0TableNumCompactionTrigger: 2},
+			[]recovery.CheckpointHandle{ops[0].handle, ops[1].handle})
+		db.Put(verifSPKeys[0], verif.Bytes("v", 1))
+		h, err := db.Checkpoint(8)()
+		verif.Assert(err == nil, "dkv-checkpoint-succeeds")
+		ops = []opState{{h, nil, dir, nil, false}}
+		nOps = 1
+		snap.operatorCheckpoints = []*snapshotpb.OperatorCheckpoint{{CheckpointId: 8, OperatorId: dir, DkvFileUri: h.URI}}
 	}
 	snap.splitStates = [][]byte{{verif.Byte("split-state")}}
 	snap.splitterState = []byte("splitter")
@@ -166,6 +192,9 @@ func Harness_C14_Artifact() {
 	mem2 := verifImport(loc)
 	for _, op := range ops {
 		db := dkv.Open(dkv.DBOptions{FileSystem: mem2.WithWorkingDir(op.dir), MemTableSize: 20, TargetFileSize: 64, L0TableNumCompactionTrigger: 2}, []recovery.CheckpointHandle{op.handle})
+		if op.vals == nil {
+			continue
+		}
 		for i, k := range verifSPKeys {
 			e, err := db.Get(k)
 			if op.vals[i] == nil {
